@@ -24,11 +24,28 @@ def genOps : List (String × R String) := [
         pure s!"{match a with | some x => hex x | none => "none"} {b}")))
 ]
 
+def ints (xs : List Int) : String := " ".intercalate (toString xs.length :: xs.map toString)
+def chars : R (List Char) := do let cs ← listOf nat; pure (cs.map Char.ofNat)
+def optS {α} (f : α → String) : Option α → String | none => "none" | some x => f x
+
+def w32 (x : Int) : Int := x % 4294967296
+
+def genOps2 : List (String × R String) := [
+  ("g:rmd_rol", do let x ← int; let i ← int; pure (ans (fun v => toString (w32 v)) (Gen.rmd_rol x i))),
+  ("g:rmd_fi", do let x ← int; let y ← int; let z ← int; let i ← int; pure (ans (fun v => toString (w32 v)) (Gen.rmd_fi x y z i))),
+  ("g:tx_len", do let b ← bytes; pure (ans toString (Gen.get_transaction_length b))),
+  ("g:polymod", do let v ← listOf int; pure (ans toString (Gen.bech32_polymod v))),
+  ("g:hrp_expand", do let h ← chars; pure (ans ints (Gen.bech32_hrp_expand h))),
+  ("g:verify_checksum", do let h ← chars; let d ← listOf int; pure (ans (optS toString) (Gen.bech32_verify_checksum h d))),
+  ("g:create_checksum", do let h ← chars; let d ← listOf int; let sp ← int; pure (ans ints (Gen.bech32_create_checksum h d sp))),
+  ("g:convertbits", do let d ← listOf int; let f ← int; let t ← int; let p ← bool; pure (ans (optS ints) (Gen.convertbits d f t p)))
+]
+
 def handle (line : String) : String :=
   match (line.splitOn " ").filter (· ≠ "") with
   | [] => "bad-op"
   | op :: args =>
-    match genOps.lookup op with
+    match (genOps ++ genOps2).lookup op with
     | none => "bad-op"
     | some f =>
       match f.run args with
